@@ -27,7 +27,7 @@ class DevProp:
     def evaluate(self, cases, results, tag):
         evals = [("FAIL", "enum_fail (fun k => %s) 0 cases" % self.fail_term),
                  ("MIS", "enum_some (fun k => %s) 0 cases" % self.mis_term),
-                 ("NT", "enum_true (fun k => %s) 0 cases" % self.nontrivial_term)]
+                 ("NT", "enum_true (fun k => %s) 0 cases" % (self.nontrivial_term or "false"))]
         n = max(20, min(150, math.ceil(len(cases) / 8)))
         return devrun.eval_shards(cases, results, evals, imports=self.imports, shard=n, emit=self.emit,
                                   case_type=self.case_type, tag=tag)
@@ -70,16 +70,29 @@ class DevProp:
 
     def report_case(self, run_, binary, case, what, steps=None, shrink=True, no_input=False):
         sig = None
-        small = case
-        if shrink and not no_input:
-            try:
-                small = self.shrink(binary, case)
-            except CheckError:
-                small = case
-        _, res = self.fails(binary, small) if not no_input else (None, None)
-        if self.known_signature:
-            sig = self.known_signature(small, res)
-        rep = {"kind": "device-history", "case": {k: v for k, v in small.items() if k != "tag"},
+        small = {k: v for k, v in case.items() if k != "tag"}
+        res = None
+        if not no_input:
+            # a failing step stays failing when the history is cut right after it
+            if steps:
+                cand = dict(small, events=small["events"][:min(steps) + 1])
+                f, r = self.fails(binary, cand)
+                if f:
+                    small, res = cand, r
+            if self.known_signature:
+                sig = self.known_signature(small, res)
+            known_ids = {k_["id"] for k_ in load_known() if k_.get("property") == self.pid and k_.get("status") == "known"}
+            if shrink and sig not in known_ids:
+                try:
+                    small = self.shrink(binary, small)
+                except CheckError:
+                    pass
+                _, res = self.fails(binary, small)
+                if self.known_signature:
+                    sig = self.known_signature(small, res)
+            elif res is None:
+                _, res = self.fails(binary, small)
+        rep = {"kind": "device-history", "case": small,
                "implementation_observation": res, "failing_steps": steps,
                "monitor": self.monitor_name if not no_input else None,
                "theorem_or_correspondence": self.correspondence_name if no_input else None,
@@ -131,7 +144,9 @@ class DevProp:
                              "(%d diverging cases), and no case in this run fails the property monitor" % (
                                  self.correspondence_name, step, i, len(mism)),
                              steps=[step], shrink=False, no_input=True)
-        nt = len({it[0] for it in m["NT"]})
+        if hasattr(self, "nontrivial_py"):
+            m["NT"] = [(i,) for i in range(len(cases)) if not (results[i].get("panic") or results[i].get("hang")) and self.nontrivial_py(cases[i], results[i])]
+        nt = len({json.dumps([cases[it[0]]["cfg"], cases[it[0]]["events"]], sort_keys=True) for it in m["NT"]})
         sample = cases[m["NT"][0][0]] if m["NT"] else cases[0]
         k = m["NT"][0][0] if m["NT"] else 0
         tags = {}
